@@ -20,6 +20,8 @@ func BlockVoluntaryExitsType(spec *common.Spec) ListTypeDef {
 type VoluntaryExits []SignedVoluntaryExit
 
 func (a *VoluntaryExits) Deserialize(spec *common.Spec, dr *codec.DecodingReader) error {
+	// decode into a recycled object: drop what it holds (dr.List appends)
+	*a = (*a)[:0]
 	return dr.List(func() codec.Deserializable {
 		i := len(*a)
 		*a = append(*a, SignedVoluntaryExit{})
